@@ -691,6 +691,13 @@ class Emitter:
         return fexpr, self.bind_args(None, ps, c[1:])
 
     def e_CallExpr(self, n):
+        if n['kind'] == 'CXXOperatorCallExpr':
+            c = self.kids(n)
+            d, fx = self.callee_decl(c[0])
+            if d is not None and d.get('isImplicit') and d.get('name') == 'operator=' and len(c) == 3:
+                # implicitly defined (memberwise) copy assignment of a class without user operator=: struct assignment
+                self.fire('R9d implicit copy assignment -> struct assignment')
+                return '(' + self.e(c[1]) + ' = ' + self.e(c[2]) + ')'
         if self.returns_class(n):
             cq = self.class_of(n['type'])
             name, args = self.callee_and_args(n)
